@@ -85,15 +85,17 @@ def isDigit (b : UInt8) : Bool := 48 ≤ b && b ≤ 57
 /-- Value of a list of decimal digit bytes (no validation). -/
 def digitsVal (bs : Bytes) : Nat := bs.foldl (fun acc b => acc * 10 + (b.toNat - 48)) 0
 
+/-- `[0-9]+`. -/
+def parseDigits? (ds : Bytes) : Option Nat :=
+  if ds.isEmpty || !ds.all isDigit then none else some (digitsVal ds)
+
 /-- `[+-]?[0-9]+` — what `strconv.ParseInt(s,10,64)` (ignoring range) and
     `big.Int.SetString(s,10)` accept. -/
 def parseDecimal? (bs : Bytes) : Option Int :=
-  let (neg, ds) := match bs with
-    | 45 :: r => (true, r)
-    | 43 :: r => (false, r)
-    | r => (false, r)
-  if ds.isEmpty || !ds.all isDigit then none
-  else some (if neg then -(digitsVal ds : Int) else (digitsVal ds : Int))
+  match bs with
+  | 45 :: r => (parseDigits? r).map fun n => -(n : Int)
+  | 43 :: r => (parseDigits? r).map fun n => (n : Int)
+  | r => (parseDigits? r).map fun n => (n : Int)
 
 /-! ### small list helpers -/
 
